@@ -570,6 +570,14 @@ func (e *executor) Execute(writer resolve.SubscriptionResponseWriter) error {
 			_ = writer.Flush()
 			w.mu.Lock()
 			w.log(Event{Ev: "engdone", ID: e.id, K: e.k})
+		case "qflush":
+			p := e.payload()
+			w.log(Event{Ev: "eng", A: "qflush", ID: e.id, K: e.k, N: e.n, Code: cancelled})
+			w.mu.Unlock()
+			_, _ = writer.Write(p)
+			_ = writer.Flush()
+			w.mu.Lock()
+			w.log(Event{Ev: "engdone", ID: e.id, K: e.k})
 		case "result":
 			p := e.payload()
 			w.log(Event{Ev: "eng", A: "result", ID: e.id, K: e.k, N: e.n, Code: cancelled})
@@ -615,8 +623,9 @@ type pool struct{ w *world }
 
 func (p *pool) Get(payload []byte) (subscription.Executor, error) {
 	var req struct {
-		Query     string `json:"query"`
-		Variables struct {
+		Query         string `json:"query"`
+		OperationName string `json:"operationName"`
+		Variables     struct {
 			Op string `json:"op"`
 			K  int    `json:"k"`
 		} `json:"variables"`
@@ -628,7 +637,7 @@ func (p *pool) Get(payload []byte) (subscription.Executor, error) {
 		return nil, errors.New("verif: payload without harness variables")
 	}
 	kind := ast.OperationTypeQuery
-	if strings.HasPrefix(strings.TrimSpace(req.Query), "subscription") {
+	if strings.HasPrefix(strings.TrimSpace(req.Query), "subscription") || req.OperationName == "S" {
 		kind = ast.OperationTypeSubscription
 	}
 	w := p.w
@@ -666,7 +675,7 @@ var (
 // in every poll round with a validation error - the only subscription behaviour reachable without an upstream)
 func realEngine() (*engine.ExecutionEngine, error) {
 	v2Once.Do(func() {
-		schema, err := graphql.NewSchemaFromString(`type Query { hello: String }`)
+		schema, err := graphql.NewSchemaFromString(`type Query { hello: String } type Subscription { tick: String }`)
 		if err != nil {
 			v2Err = err
 			return
@@ -877,7 +886,7 @@ func wireOf(proto string, s Step) ([]byte, bool) {
 		return []byte(`{"type":"connection_init","payload":{"reject":"nil"}}`), false
 	case "subbad": // subscribe/start for id 1 whose payload cannot be deserialized
 		pl := ""
-		switch s.V % 6 {
+		switch s.V % 8 {
 		case 1:
 			pl = `,"payload":"query Q { hello }"`
 		case 2:
@@ -888,6 +897,10 @@ func wireOf(proto string, s Step) ([]byte, bool) {
 			pl = `,"payload":5`
 		case 5:
 			pl = fmt.Sprintf(`,"payload":{"query":["query Q { hello }"],"variables":%s}`, vars("1"))
+		case 6:
+			pl = `,"payload":null`
+		case 7:
+			pl = `,"payload":{}`
 		}
 		return []byte(fmt.Sprintf(`{"id":"1","type":%q%s}`, sub, pl)), false
 	case "readerr":
@@ -907,6 +920,13 @@ func wireOf(proto string, s Step) ([]byte, bool) {
 		return subMsg("2", true, q), false
 	case "sub2s":
 		return subMsg("2", true, sq), false
+	case "sub1dq", "sub2ds": // one document with two operations, the operation is selected by operationName
+		id, name := "1", "Q"
+		if s.Sym == "sub2ds" {
+			id, name = "2", "S"
+		}
+		return []byte(fmt.Sprintf(`{"id":%q,"type":%q,"payload":{"query":%q,"operationName":%q,"variables":%s}}`,
+			id, sub, "query Q { hello } subscription S { tick }", name, vars(id))), false
 	case "subPq": // the liveness probe appended by the driver (graphql-ws)
 		return subMsg("P", true, q), false
 	case "comp1":
@@ -1174,7 +1194,7 @@ func runCase(c Case) ([]Event, Result) {
 		var okDone bool
 		if s.Hold == 1 {
 			okDone = w.waitFor(stepWait, func() bool { return w.held })
-		} else if s.What == "data" {
+		} else if s.What == "data" || s.What == "qflush" {
 			okDone = w.waitFor(stepWait, func() bool { return e.cmd == "" && e.parked })
 		} else {
 			// completion marker: the executor is executed again (poll loop) or was handed back to the pool
